@@ -24,5 +24,6 @@ func TestCheck(t *testing.T) {
 		{Name: "om?np=1&auto=1&ops=3&gates=om.flush.sent&faults=" + faults, Q: 7, T: 9},
 		{Name: "om?np=1&auto=0&ops=3&gates=om.flush.sent&faults=" + faults, Q: 7, T: 9},
 		{Name: "om?np=2&auto=1&ops=2&init=valid&ret=1&gates=om.flush.sent&faults=" + faults, Q: 5, T: 7},
+		{Name: "om?np=1&auto=1&ops=2&init=zero&gates=om.flush.sent&faults=" + faults, Q: 5, T: 7},
 	}, 50*time.Second, 9*time.Minute, assumptions)
 }
